@@ -1,7 +1,53 @@
-import PvlModel.Model.Spec
+import PvlModel.Lemmas.ParserFrame
+import PvlModel.Lemmas.ParseSpec
 /-!
-# C08
-(theorems are added below as they are proved; see DESIGN §5)
+# C08 — missing values: tolerated by the default loader only
+
+The strict half of the property, for every grammar table, decoder, strict parser class (`PVLParser`,
+`ODLParser` and their PDS3 / ISIS configurations — everything except `OmniParser`) and text:
+
+* `parser.errors` is empty after every `parse()`, whatever its outcome;
+* a module that is returned contains no `EmptyValueAtLine` placeholder at any depth;
+
+so a text whose only reading needs a placeholder cannot be loaded by a strict parser: it raises
+(`C06_errors` says what).  The proof is a second Hoare pass (`Lemmas/ParserFrame.lean`) over all parser
+functions with the invariant "`errors = []`, no placeholder in any value built so far".
+
+The permissive half (the placeholder carries the 1-based line of its `=`, `errors` lists exactly those
+lines, sorted) is decided by the generator-built expectation in `vlib/props/c08.py` against the real
+loader and the model; the theorem for it is open.
 -/
 namespace Pvl
+open P
+
+/-- **C08, strict parsers never repair** -/
+theorem C08_strict_no_placeholder (g : Grammar) (d : Dec) (kind : ParserKind) (hk : kind ≠ .omni)
+    (prior : List Int) (text : Str) :
+    (parseWith g d kind prior text).errors = [] ∧
+    ∀ m, (parseWith g d kind prior text).outcome = .ok m → noEmptyI m = true := by
+  unfold parseWith
+  simp only
+  generalize (if kind == ParserKind.omni then omniPrepass text else text) = doc
+  generalize lexAll g d doc = lx
+  obtain ⟨toks, tail⟩ := lx
+  simp only
+  have hs := triple_elim _ _ _ _
+    (moduleLoop_clean ⟨g, d, kind, doc, tail⟩ hk (fuelFor (toks.length + 2)) [] (by simp))
+    ⟨⟨toks, none, none, false⟩, [], [], none, false⟩ (by simp [Clean])
+  revert hs
+  generalize (moduleLoop ⟨g, d, kind, doc, tail⟩ [] (fuelFor (toks.length + 2))).run.run
+    ⟨⟨toks, none, none, false⟩, [], [], none, false⟩ = res
+  obtain ⟨r, st'⟩ := res
+  intro hs
+  cases r with
+  | ok m =>
+    simp only [Clean] at hs
+    exact ⟨hs.1, fun m' hm => by cases hm; exact hs.2⟩
+  | error e =>
+    simp only [Clean] at hs
+    exact ⟨hs, fun m' hm => by cases hm⟩
+
+/-- the placeholder the default loader makes is recognised by `noEmpty` (non-vacuity of the predicate) -/
+example : (Val.cont .group [([97], .seq [.int 1, .empty 3])]).noEmpty = false := by decide
+
 end Pvl
